@@ -6,6 +6,7 @@ import genck
 import implck
 from ckprop import shrink_candidates  # noqa: F401
 from props import C19 as _C19
+import directed
 
 DESCRIPTION = ("Lean: Props/C09.lean (dispatch of createViolationError; decoration-time validation table). Oracle on the "
                "implementation: what surfaces for each error form, factory called exactly once with exactly the named "
@@ -58,7 +59,12 @@ def _exh():
                         yield genck.fill_oracle_defaults(case)
 
 
+run_directed = directed.run
+
+
 def cases(tier, rng):
+    for c in directed.error_functions_sharing_code_cases():
+        yield "directed-error-functions-sharing-code", c
     for t, c in _C19.cases(tier, rng):
         if c.get('dom') == 'define' and c['what'] in ('error_arg',):
             yield 'def_' + t, c
